@@ -400,8 +400,8 @@ Definition derive (m : mode) (p : accessor) (op : dop) : outcome dresult :=
       | DIntoArrayU8 => Val (Ok (AArr (vs_into_array_u8 s)))
       | DFromSlice T off cnt =>
           (* the caller builds &bytes[off..off+cnt] of the slice's memory itself; only meaningful
-             when that range lies in the slice *)
-          if off + cnt <=? vs_size s then
+             when that range lies in the slice (and a &[u8] is never longer than isize::MAX) *)
+          if (off + cnt <=? vs_size s) && (cnt <=? ISZ_MAX) then
             match bv_from_slice T (vs_addr s + off) cnt with
             | Some t => Val (Ok (ATyped t))
             | None => Val (Err DNone)
